@@ -1593,6 +1593,23 @@ static void h_c_hook(const char *cmd, cfg_t *cfg)
 {
 	char *path = h_str(2);
 
+	if (!strcmp(cmd, "unfilter")) {	/* unfilter C SECPATH: cfg_set_print_filter_func(sec, NULL) */
+		cfg_t *sec;
+		int i;
+
+		if (h_bad)
+			return;
+		H_LIB(sec = path ? cfg_getsec(cfg, path) : cfg);
+		if (sec) {
+			h_filt_purge();
+			cfg_set_print_filter_func(sec, NULL);
+			for (i = h_nfilts - 1; i >= 0; i--)
+				if (h_filts[i].sec == sec)
+					h_filt_drop(i);
+		}
+		h_std(cmd, "rc=%s", sec ? "ok" : "nosec");
+		return;
+	}
 	if (!strcmp(cmd, "filter")) {
 		h_filt f = { NULL, 0, NULL, 0, 0 };
 		char *req[H_MAXTOK];
@@ -1788,7 +1805,7 @@ static const struct h_cmd {
 	{ "addtsec", h_c_edit, 1, 4, 4 }, { "rmsec", h_c_edit, 1, 3, 3 }, { "rmnsec", h_c_edit, 1, 4, 4 },
 	{ "rmtsec", h_c_edit, 1, 4, 4 },
 	{ "validate", h_c_hook, 1, 4, 5 }, { "validate2", h_c_hook, 1, 4, 5 }, { "printfunc", h_c_hook, 1, 4, 5 },
-	{ "filter", h_c_hook, 1, 3, H_MAXTOK }, { "print", h_c_print, 1, 3, 3 }, { "printopt", h_c_print, 1, 3, 3 },
+	{ "filter", h_c_hook, 1, 3, H_MAXTOK }, { "unfilter", h_c_hook, 1, 3, 3 }, { "print", h_c_print, 1, 3, 3 }, { "printopt", h_c_print, 1, 3, 3 },
 	{ "roundtrip", h_c_roundtrip, 1, 3, 3 },
 	{ "tilde", h_c_expand, 0, 2, 2 }, { "lookup", h_c_expand, 1, 3, 3 },
 	{ "failalloc", h_c_count, 0, 2, 2 }, { "live", h_c_count, 0, 1, 1 },
